@@ -169,7 +169,7 @@ def readWhenClause (ps : List Prim) : Option (List Nat × List Prim) :=
 
 def stripPrefix : List Prim → List Prim → Option (List Prim)
   | [], ps => some ps
-  | b :: bs, p :: ps => if b == p then stripPrefix bs ps else none
+  | b :: bs, p :: ps => if b = p then stripPrefix bs ps else none
   | _ :: _, [] => none
 
 /-- what a clause segment jumps to: (case label, end label, else label) -/
